@@ -78,21 +78,34 @@ def execute_run(plan: dict, schedule: list | None = None, timeout_s: int = 900) 
     stats = _stats(plan, records, reports)
     if harness_error is None:
         h = History(plan, records)
-        violations += oracles.oracle_c09(h)
-        violations += oracles.oracle_c03(h)
-        violations += oracles.oracle_c06(h)
-        v8, n_agents = oracles.oracle_c08(h)
-        violations += v8
-        stats["c08_agents_in_memo"] = n_agents
-        violations += oracles.oracle_c04_exact(h)
+        oracle_errors = []
+
+        def run_oracle(name, fn):
+            # an oracle that trips over a malformed result must not swallow what the others found
+            import traceback
+
+            try:
+                return fn()
+            except Exception as e:  # noqa: BLE001
+                oracle_errors.append(f"oracle {name} crashed: {e!r}\n{traceback.format_exc()[-1200:]}")
+                return None
+
+        for name, fn in (("C09", oracles.oracle_c09), ("C03", oracles.oracle_c03), ("C06", oracles.oracle_c06), ("C04-exact", oracles.oracle_c04_exact)):
+            violations += run_oracle(name, lambda fn=fn: fn(h)) or []
+        r8 = run_oracle("C08", lambda: oracles.oracle_c08(h))
+        if r8:
+            violations += r8[0]
+            stats["c08_agents_in_memo"] = r8[1]
         if plan.get("profile") in ("C03", "C04", "C06", "C08"):
-            violations += oracles.oracle_no_result(h, plan["profile"])
+            violations += run_oracle("no-result", lambda: oracles.oracle_no_result(h, plan["profile"])) or []
         if plan.get("profile") == "C04" or plan.get("c04_stats"):
             from dsim import stats as st
 
-            v4, s4 = st.oracle_c04_stats(h)
-            violations += v4
-            stats["c04"] = s4
+            r4 = run_oracle("C04-stats", lambda: st.oracle_c04_stats(h))
+            if r4:
+                violations += r4[0]
+                stats["c04"] = r4[1]
+        out["oracle_errors"] = oracle_errors
         stats["c06_ongrid_rows"] = sum(r.get("_ongrid", 0) for r in records)
         stats["c04_seam_rows_checked"] = sum(r.get("_seam_rows_checked", 0) for r in records)
         stats["c04_seam_calls"] = sum(r.get("_seam_rc", 0) for r in records)
